@@ -185,9 +185,17 @@ def numpy_ints(net, G):
     if net.get("np32"):
         # large capacities that still fit a 32-bit integer, no opposite edge pairs (so no residual capacity exceeds the width either)
         return {u: [(v, np.int32(c)) for v, c in l] for u, l in G.items()}
+    h = int(hashlib.sha256(repr((net["edges"], net["s"], net["t"])).encode()).hexdigest()[:4], 16) % 4
+    if h == 1:
+        # a collections.defaultdict(list) network in which vertices without outgoing edges (typically the sink) have no explicit key
+        from collections import defaultdict
+        D = defaultdict(list)
+        for u, l in G.items():
+            if l or u == net["s"]:
+                D[u] = list(l)
+        return D
     if any(c > 1000 for _, _, c in net["edges"]):
         return G
-    h = int(hashlib.sha256(repr((net["edges"], net["s"], net["t"])).encode()).hexdigest()[:4], 16) % 4
     if h != 0:
         return G
     ct = np.int64 if len(net["edges"]) % 2 == 0 else np.int32
